@@ -337,6 +337,9 @@ def run(rep):
     for i in docimpls:
         rep.check(i["self"] in known, "NO-OVERRIDE", "NO-OVERRIDE/doc-impl/" + i["self"], i["sp"], "Document impl is one of the reviewed five", i["self"])
     check_nested(rep, A)
+    # no optimiser pass may turn a nested block into a dotted key or back (they differ over arrays): every arm is identity/congruence/reviewed
+    import core
+    core.import_rules(rep, "c01", {"PASS-ARMS"})
     rep.floor("T-FIND", 24)
     rep.floor("STEP-TOTAL", 10)
     rep.floor("INDEX", 16)
